@@ -44,8 +44,9 @@ func setup(c *casket.Controller) error {
 
 func logParse(c *casket.Controller) ([]*Rule, error) {
 	var rules []*Rule
-	var logExceptions []string
 	for c.Next() {
+		// (the exceptions of one log directive are its own)
+		var logExceptions []string
 		args := c.RemainingArgs()
 
 		ip4Mask := net.IPMask(net.ParseIP(DefaultIP4Mask).To4())
